@@ -17,8 +17,16 @@ echo "demo on patched tree: exit $rc1 (expected non-zero)"; tail -3 "$P/demo.out
 (cd "$Q" && PYTHONPATH="$Q" TQDM_DISABLE=1 timeout 3000 /venv/bin/python SEED_demo.py > "$Q/demo.out" 2>&1); rc2=$?
 echo "demo on pristine tree: exit $rc2 (expected 0)"; tail -3 "$Q/demo.out" | sed 's/^/    /'
 echo "repository test suite on patched tree (stable_pass of BASELINE.json):"
-PYTHONPATH="$P" /verif/baseline_check.sh "$P" 2>&1 | tail -6 | sed 's/^/    /'
-echo "baseline exit: ${PIPESTATUS[0]}"
+PYTHONPATH="$P" /verif/baseline_check.sh "$P" > "$P/baseline.out" 2>&1; brc=$?
+grep -E "stable_pass|REGRESSION" "$P/baseline.out" | sed 's/^/    /'; tail -1 "$P/baseline.out" | sed 's/^/    /'
+echo "baseline exit: $brc"
+if [ $brc -ne 0 ]; then
+  # heavy regression tests hit the 900 s pytest timeout when the machine is shared: re-run the
+  # regressed tests on their own (patched tree), one process, generous timeout
+  ids=$(grep REGRESSION "$P/baseline.out" | awk '{print $2}' | sed 's/^tests\.\(.*\)\.\([A-Za-z0-9_]*\)::/tests\/\1.py::\2::/; s/\./\//g; s/\/py::/.py::/')
+  echo "re-running regressed tests individually:"
+  (cd "$P" && PYTHONPATH="$P" /venv/bin/python -m pytest -q -p no:cacheprovider --timeout=7200 $ids 2>&1 | tail -3 | sed 's/^/    /')
+fi
 } > "$LOG" 2>&1
 rm -rf "$P" "$Q"
 tail -4 "$LOG"
